@@ -16,6 +16,7 @@ import (
 )
 
 type VSimGroupCtx struct {
+	ClientID   string
 	Seq        int64
 	Kind       string // find-coordinator | join | sync | heartbeat | leave | commit | offset-fetch
 	N          int    // n-th request of this kind for this group (1-based)
@@ -54,6 +55,7 @@ type VSimGroupAction struct {
 
 // VSimGroupEvent is one coordinator request with the answer it got.
 type VSimGroupEvent struct {
+	ClientID   string
 	Seq        int64
 	Kind       string
 	N          int
@@ -252,7 +254,7 @@ func (s *VSim) GroupEvents() []VSimGroupEvent {
 }
 
 func (s *VSim) dispatchGroup(b *VSimBroker, connID int64, ctx *VSimReqCtx, req *request) (*vsResponse, int, bool) {
-	gc := &VSimGroupCtx{Seq: ctx.Seq, Broker: b.ID, Conn: connID}
+	gc := &VSimGroupCtx{ClientID: ctx.ClientID, Seq: ctx.Seq, Broker: b.ID, Conn: connID}
 	switch r := req.body.(type) {
 	case *FindCoordinatorRequest:
 		gc.Kind, gc.Group = "find-coordinator", r.CoordinatorKey
@@ -296,7 +298,7 @@ func (s *VSim) dispatchGroup(b *VSimBroker, connID int64, ctx *VSimReqCtx, req *
 	if act.DelayMs > 0 {
 		time.Sleep(time.Duration(act.DelayMs) * time.Millisecond)
 	}
-	ev := &VSimGroupEvent{Kind: gc.Kind, N: gc.N, Broker: b.ID, Conn: connID, Group: gc.Group, Member: gc.Member, Generation: gc.Generation, Action: act.Kind, Blocks: gc.Blocks}
+	ev := &VSimGroupEvent{ClientID: gc.ClientID, Kind: gc.Kind, N: gc.N, Broker: b.ID, Conn: connID, Group: gc.Group, Member: gc.Member, Generation: gc.Generation, Action: act.Kind, Blocks: gc.Blocks}
 	if act.Kind == VGDropBefore {
 		s.mu.Lock()
 		ev.Code = -100
@@ -308,6 +310,17 @@ func (s *VSim) dispatchGroup(b *VSimBroker, connID int64, ctx *VSimReqCtx, req *
 	if act.Kind == VGMoveCoordinator {
 		s.mu.Lock()
 		g.coordinator = act.MoveTo
+		s.mu.Unlock()
+	}
+	if act.Kind == VGError && act.Code == ErrUnknownMemberId && gc.Member != "" {
+		// make the injected answer true: the coordinator has removed the member (as a session timeout would)
+		s.mu.Lock()
+		if _, ok := g.members[gc.Member]; ok {
+			delete(g.members, gc.Member)
+			s.logEvent("group-expire", g.coordinator, 0, map[string]interface{}{"group": g.name, "member": gc.Member, "why": "injected fencing"})
+			s.prepareRebalanceLocked(g)
+			s.maybeCompleteJoinLocked(g)
+		}
 		s.mu.Unlock()
 	}
 	resp := s.handleGroup(b, g, gc, act, ev, req)
